@@ -98,8 +98,9 @@ func init() {
 		// failing to get the lock aborts the transaction: on the all-guards-false path SetState(ABORTED) precedes return
 		hfn := w.SSA(a.THGetTuple)
 		r.Floor("guard edges in TableHeap.GetTuple", countCutEdges(hfn, cuts), 4)
-		wit = (&PathQ{Fn: hfn, Cut: cuts, Target: InstrCallsObj(a.TPGetTuple, a.BPMFetch)}).FromEntry()
-		r.Check(wit == nil, "TableHeap.GetTuple:fetch-needs-lock", "the heap page is fetched and read only under a row lock (or in recovery)", "unguarded path: "+w.DescribeWitness(hfn, wit))
+		// (pinning the page before the lock check would be harmless; reading it is not)
+		wit = (&PathQ{Fn: hfn, Cut: cuts, Target: InstrCallsObj(a.TPGetTuple)}).FromEntry()
+		r.Check(wit == nil, "TableHeap.GetTuple:read-needs-lock", "the heap page is read (TablePage.GetTuple) only under a row lock (or in recovery)", "unguarded path: "+w.DescribeWitness(hfn, wit))
 		for _, f := range []*ssa.Function{fn, hfn} {
 			wit = (&PathQ{Fn: f, Cut: cuts, Avoid: InstrCallsObj(a.TxnSetState), Target: isReturn}).FromEntry()
 			r.Check(wit == nil, funcKey(f)+":lock-failure-aborts", "when no lock can be had the transaction is set ABORTED before returning", "path: "+w.DescribeWitness(f, wit))
